@@ -172,14 +172,21 @@ def _apply_common(piece, blk):
         piece.insert_before(closer, '}', 'closure_spec')
         piece.counts['closure_spec'] -= 1
     for where, anchor, lines in blk.get('anchored', []):
-        if where in ('loop_spec', 'loop_top'):
+        if where in ('loop_spec', 'loop_top', 'loop_end', 'before_loop', 'for_name'):
             # anchor = start of a loop header (`while let Ok(frame) =`, `for frame in`, `loop`): loop_spec lines go
-            # before the `{` of the loop body, loop_top lines right after it
+            # before the `{` of the loop body, loop_top lines right after it, loop_end lines before its closing `}`,
+            # before_loop lines before the loop statement
             hits, n = piece.find(anchor, unique=False, what=where)
             if len(hits) != 1:
-                piece.counts['hint_skipped'] = piece.counts.get('hint_skipped', 0) + 1
+                # no loop left at all in the piece: loop scaffolding is simply not needed
+                has_loop = any(t.kind == 'ident' and t.text in ('for', 'while', 'loop') for t in piece.src.s[piece.a:piece.b + 1])
+                if has_loop or len(hits) > 1:
+                    piece.counts['hint_skipped'] = piece.counts.get('hint_skipped', 0) + 1
                 continue
             s_ = piece.src.s
+            if where == 'for_name':
+                piece.insert_after(hits[0] + n - 1, ' it: ')
+                continue
             k = hits[0]
             depth = 0
             while not (s_[k].text == '{' and depth == 0):
@@ -189,8 +196,12 @@ def _apply_common(piece, blk):
             txt = '\n' + '\n'.join(lines) + '\n'
             if where == 'loop_spec':
                 piece.insert_before(k, txt)
-            else:
+            elif where == 'loop_top':
                 piece.insert_after(k, txt)
+            elif where == 'loop_end':
+                piece.insert_before(rtok.match_close(s_, k), txt)
+            else:
+                piece.insert_before(hits[0], txt)
             continue
         if where.endswith('?'):
             where = where[:-1]
@@ -451,7 +462,7 @@ def generate(repo, template_text, variables=None):
             elif d == 'closure_spec':
                 frm, to = re.split(r'(?<!<)==>', rest, maxsplit=1)
                 blk.setdefault('closure_specs', []).append((frm.strip(), to.strip()))
-            elif d in ('after', 'before', 'before_stmt', 'after?', 'before?', 'before_stmt?', 'loop_spec', 'loop_top'):
+            elif d in ('after', 'before', 'before_stmt', 'after?', 'before?', 'before_stmt?', 'loop_spec', 'loop_top', 'loop_end', 'before_loop', 'for_name'):
                 lst = []
                 blk['anchored'].append((d, rest, lst))
                 section = lst
